@@ -30,7 +30,8 @@ pub const REGISTRY: &[(&str, fn(&Reporter), &str)] = &[("C01", c01::check, "expl
 pub fn replay(v: &serde_json::Value) -> i32 {
 	let prop = v.get("property").and_then(|p| p.as_str()).unwrap_or("");
 	let r = &v["replay"];
-	if r.get("engine").and_then(|e| e.as_str()) == Some("SCHED") {
+	let sched_props = ["C01", "C03", "C04", "C05", "C06", "C09", "C10", "C11"];
+	if r.get("engine").and_then(|e| e.as_str()) == Some("SCHED") && sched_props.contains(&prop) {
 		let name = r["scenario"].as_str().unwrap_or("");
 		let choices: Vec<usize> = r["choices"].as_array().map(|a| a.iter().filter_map(|x| x.as_u64().map(|n| n as usize)).collect()).unwrap_or_default();
 		let scen: Vec<Box<dyn crate::sched::DynScenario>> = match prop {
@@ -97,7 +98,64 @@ pub fn replay(v: &serde_json::Value) -> i32 {
 		println!("NOT-REPRODUCED");
 		return 0;
 	}
-	println!("replay of property {prop}: {}", serde_json::to_string_pretty(v).unwrap_or_default());
-	println!("(ENUM/HIST case: re-run `verif check {prop}` to re-evaluate it; the case is part of the enumerated space)");
+	// ENUM / HIST cases: re-run the check restricted to the recorded case (leg number + index, or leg number + history)
+	if let Some(cr) = r.get("case_ref") {
+		let Some((name, check, level)) = REGISTRY.iter().find(|(n, _, _)| *n == prop) else {
+			println!("unknown property {prop}");
+			return 2;
+		};
+		let tier = if cr["tier"] == "thorough" { crate::report::Tier::Thorough } else { crate::report::Tier::Quick };
+		let leg = cr["leg"].as_u64().unwrap_or(u64::MAX) as usize;
+		let idx: Vec<usize> = match (cr.get("index"), cr.get("history")) {
+			(Some(i), _) if i.is_u64() => vec![i.as_u64().unwrap() as usize],
+			(_, Some(h)) => h.as_array().map(|a| a.iter().filter_map(|x| x.as_u64().map(|n| n as usize)).collect()).unwrap_or_default(),
+			_ => vec![],
+		};
+		let mut rep = Reporter::new(name, tier, 0, level, 1);
+		rep.replay_filter = Some((leg, idx.clone()));
+		crate::sched::install_hooks();
+		let res = std::panic::catch_unwind(std::panic::AssertUnwindSafe(|| check(&rep)));
+		println!("case: property {prop}, tier {:?}, enumeration leg {leg}, {} {idx:?}", cr["tier"], if cr.get("history").is_some() { "history (menu indices)" } else { "index" });
+		println!("recorded case: {}", serde_json::to_string(r).unwrap_or_default());
+		if res.is_err() {
+			println!("the check panicked while re-evaluating the case");
+		}
+		let want = v["signature"].as_str().unwrap_or("");
+		let got = rep.reported();
+		for (sig, what) in &got {
+			println!("violation: {sig}: {what}");
+		}
+		if got.iter().any(|(s, _)| s == want) {
+			println!("REPRODUCED");
+			return 1;
+		}
+		println!("NOT-REPRODUCED");
+		return 0;
+	}
+	// no finer address was recorded (sequential enumerations such as C17's stub products): re-evaluate the whole tier
+	let Some((name, check, level)) = REGISTRY.iter().find(|(n, _, _)| *n == prop) else {
+		println!("unknown property {prop}");
+		return 2;
+	};
+	let tier = if v["tier"] == "thorough" { crate::report::Tier::Thorough } else { crate::report::Tier::Quick };
+	let jobs = std::thread::available_parallelism().map(|n| n.get()).unwrap_or(4);
+	let rep = Reporter::new(name, tier, 0, level, jobs);
+	crate::sched::install_hooks();
+	let res = std::panic::catch_unwind(std::panic::AssertUnwindSafe(|| check(&rep)));
+	println!("recorded case: {}", serde_json::to_string(r).unwrap_or_default());
+	println!("(no single-case address in this file: the whole {} tier of {prop} was re-evaluated)", tier.name());
+	if res.is_err() {
+		println!("the check panicked");
+	}
+	let want = v["signature"].as_str().unwrap_or("");
+	let got = rep.reported();
+	for (sig, what) in got.iter().filter(|(s, _)| s == want) {
+		println!("violation: {sig}: {what}");
+	}
+	if got.iter().any(|(s, _)| s == want) {
+		println!("REPRODUCED");
+		return 1;
+	}
+	println!("NOT-REPRODUCED");
 	0
 }
